@@ -8,6 +8,11 @@ import (
 	"strconv"
 )
 
+// maxNesting is how many lists and dictionaries may enclose one another in
+// the input. The decoder recurses once per nesting level; without a bound a
+// few megabytes of "l" exhaust the goroutine stack, which ends the process.
+const maxNesting = 10000
+
 // A Decoder reads bencoded objects from an input stream.
 type Decoder struct {
 	r *bufio.Reader
@@ -20,17 +25,18 @@ func NewDecoder(r io.Reader) *Decoder {
 
 // Decode unmarshals the next bencoded value in the stream.
 func (dec *Decoder) Decode() (interface{}, error) {
-	return unmarshal(dec.r)
+	return unmarshal(dec.r, 0)
 }
 
 // Unmarshal deserializes and returns the bencoded value in buf.
 func Unmarshal(buf []byte) (interface{}, error) {
 	r := bufio.NewReader(bytes.NewBuffer(buf))
-	return unmarshal(r)
+	return unmarshal(r, 0)
 }
 
-// unmarshal reads bencoded values from a bufio.Reader
-func unmarshal(r *bufio.Reader) (interface{}, error) {
+// unmarshal reads bencoded values from a bufio.Reader; depth is the number of
+// lists and dictionaries the value is nested in.
+func unmarshal(r *bufio.Reader, depth int) (interface{}, error) {
 	tok, err := r.ReadByte()
 	if err != nil {
 		return nil, err
@@ -41,10 +47,16 @@ func unmarshal(r *bufio.Reader) (interface{}, error) {
 		return readTerminatedInt(r, 'e')
 
 	case 'l':
-		return readList(r)
+		if depth >= maxNesting {
+			return nil, errors.New("bencode: exceeded max nesting depth")
+		}
+		return readList(r, depth+1)
 
 	case 'd':
-		return readDict(r)
+		if depth >= maxNesting {
+			return nil, errors.New("bencode: exceeded max nesting depth")
+		}
+		return readDict(r, depth+1)
 
 	default:
 		err = r.UnreadByte()
@@ -96,7 +108,7 @@ func readTerminatedInt(r *bufio.Reader, term byte) (int64, error) {
 	return strconv.ParseInt(string(buf[:len(buf)-1]), 10, 64)
 }
 
-func readList(r *bufio.Reader) (List, error) {
+func readList(r *bufio.Reader, depth int) (List, error) {
 	list := NewList()
 	for {
 		ok, err := readTerminator(r, 'e')
@@ -106,7 +118,7 @@ func readList(r *bufio.Reader) (List, error) {
 			break
 		}
 
-		v, err := unmarshal(r)
+		v, err := unmarshal(r, depth)
 		if err != nil {
 			return nil, err
 		}
@@ -116,7 +128,7 @@ func readList(r *bufio.Reader) (List, error) {
 	return list, nil
 }
 
-func readDict(r *bufio.Reader) (Dict, error) {
+func readDict(r *bufio.Reader, depth int) (Dict, error) {
 	dict := NewDict()
 	for {
 		ok, err := readTerminator(r, 'e')
@@ -126,7 +138,7 @@ func readDict(r *bufio.Reader) (Dict, error) {
 			break
 		}
 
-		v, err := unmarshal(r)
+		v, err := unmarshal(r, depth)
 		if err != nil {
 			return nil, err
 		}
@@ -136,7 +148,7 @@ func readDict(r *bufio.Reader) (Dict, error) {
 			return nil, errors.New("bencode: non-string map key")
 		}
 
-		dict[key], err = unmarshal(r)
+		dict[key], err = unmarshal(r, depth)
 		if err != nil {
 			return nil, err
 		}
